@@ -21,8 +21,10 @@ BOUND = 2 ** 62
 RANKS = (1, 2, 3, 4, 5)
 
 
-def setup_dims(wp, R, name='dims'):
-    """symbolic dims with the tensor invariant: every extent >= 0 and every suffix product <= 2^62"""
+def setup_dims(wp, R, name='dims', signed=False):
+    """symbolic dims with the tensor invariant: every extent >= 0 and every suffix product <= 2^62
+    (signed=True: extents of either sign -- reshape passes its requested sizes, one of which may be -1, to size() --
+    with every suffix product in [-2^62, 2^62])"""
     declare_array(wp, name, R)
     P = [wp.const(f'P{k}', 'Int', 'long') for k in range(R + 1)]
     wp.P = [p.t for p in P]
@@ -30,10 +32,13 @@ def setup_dims(wp, R, name='dims'):
     wp.assume(f'(= {wp.P[R]} 1)')
     for k in range(R):
         d = wp.env[f'{name}.{k}'].t
-        wp.assume(f'(>= {d} 0)')
         wp.assume(f'(= {wp.P[k]} (* {d} {wp.P[k + 1]}))')
         wp.assume(f'(<= {wp.P[k]} {BOUND})')
-        wp.assume(f'(>= {wp.P[k]} 0)')
+        if signed:
+            wp.assume(f'(>= {wp.P[k]} (- {BOUND}))')
+        else:
+            wp.assume(f'(>= {d} 0)')
+            wp.assume(f'(>= {wp.P[k]} 0)')
     wp.dims_name = name
 
 
@@ -43,6 +48,13 @@ def F(wp, k, idx):
     if not terms:
         return '0'
     return terms[0] if len(terms) == 1 else '(+ ' + ' '.join(terms) + ')'
+
+
+def ensures_index0_end(wp, idx, r):
+    """END-INCLUSIVE contract of index0(dims, i) / get_index0<0>(dims, i): for 0 <= i <= dims[0] (one past the last row is
+    allowed, as tslice(begin == dims[0], end == dims[0]) needs it) the offset is i * P_1, lies in [0, size] and nothing
+    overflows.  The code's own assert (i < dims[0]) is stronger; it is kept as a separate obligation at the call sites."""
+    return [('offset == i * P_1', f'(= {r} {F(wp, 0, idx)})'), ('0 <= offset <= size', f'(and (<= 0 {r}) (<= {r} {wp.P[0]}))')]
 
 
 def ensures_get_index(wp, zero, k, idx, r):
@@ -73,6 +85,13 @@ def h_get_index(zero):
         idx = [wp.ev(a) for a in args[1:]]
         if not zero and k + len(idx) != wp.R:
             raise nvwp.Unsupported(f'get_index<{k}> with {len(idx)} indices on rank {wp.R}')
+        if getattr(wp, 'end_inclusive', False) and zero and k == 0 and len(idx) == 1:
+            d = wp.env[f'{wp.dims_name}.0'].t
+            wp.oblige('callee get_index0<0> end-inclusive precondition: 0 <= index <= dims[0]', f'(and (<= 0 {idx[0].t}) (<= {idx[0].t} {d}))', n)
+            r = wp.fresh('Int', 'get_index0', 'long')
+            for _, claim in ensures_index0_end(wp, [idx[0].t], r.t):
+                wp.assume(claim)
+            return r
         for j, v in enumerate(idx):     # callee precondition -> obligation at the call site
             d = wp.env[f'{wp.dims_name}.{k + j}'].t
             wp.oblige(f'callee get_index{"0" if zero else ""}<{k}> precondition: index {j} in range', f'(and (<= 0 {v.t}) (< {v.t} {d}))', n)
@@ -101,9 +120,10 @@ CALLS = [(r'^get\|', h_std_get), (r'^product\|', h_product), (r'^get_index\|', h
 MEMBERS = [(r'^fill\|std::array', h_array_fill)]
 
 
-def mk(name, decl, select, R, post, about, idx_names=None):
+def mk(name, decl, select, R, post, about, idx_names=None, signed=False, end_inclusive=False):
     docs, fn = load(TU, FLT, decl, select)
     wp = IdEnvWP(name, calls=CALLS, members=MEMBERS, bindings=nvwp.template_bindings(docs, fn))
+    wp.end_inclusive = end_inclusive
     keys = wp.bind_params(fn)
     idx = []
     for key, p in keys:
@@ -112,7 +132,7 @@ def mk(name, decl, select, R, post, about, idx_names=None):
             if key == 'dimsx':
                 declare_array(wp, key, n)
             else:
-                setup_dims(wp, n, key)
+                setup_dims(wp, n, key, signed=signed)
         else:
             wp.env[key] = wp.fresh('Int', key, 'long')
             wp.assume(wp.in_range(wp.env[key].t, 'long'))
@@ -153,6 +173,8 @@ def build(tier):
             def post(wp, rv, k=k):
                 return [(f'product<{k},{wp.R}> == prod(dims[{k}:])', f'(= {rv.t} {wp.P[k]})')]
             add(mk(f'product<{k},{R}>', 'product', sel([k, R], 1), R, post, 'suffix product of the dimensions'))
+            if R <= 4:
+                add(mk(f'product<{k},{R}>/signed', 'product', sel([k, R], 1), R, post, 'suffix product of extents of either sign (reshape)', signed=True))
         # get_index<k, R>(dims, i_k, ..., i_{R-1}) and get_index0<k, R>(dims, i_k, .., i_{k+m-1})
         for zero in (False, True):
             nm = 'get_index0' if zero else 'get_index'
@@ -221,16 +243,81 @@ def build(tier):
         def post_size(wp, rv):
             return [('size == prod(dims)', f'(= {rv.t} {wp.P[0]})'), ('size >= 0', f'(>= {rv.t} 0)')]
         add(mk(f'size<{R}>', 'size', sel([R], 1), R, post_size, 'number of elements'))
+        if R <= 4:
+            def post_size_signed(wp, rv):
+                return [('size == prod(dims)', f'(= {rv.t} {wp.P[0]})')]
+            add(mk(f'size<{R}>/signed', 'size', sel([R], 1), R, post_size_signed, 'product of extents of either sign (reshape)', signed=True))
+
+            # end-inclusive contract of index0(dims, i): i == dims[0] allowed (tslice(begin == end == dims[0]))
+            def post_end(wp, rv):
+                return ensures_index0_end(wp, wp.idx, rv.t)
+
+            def setup_end(wp):
+                wp.assume(f'(and (<= 0 {wp.idx[0]}) (<= {wp.idx[0]} {wp.env[f"{wp.dims_name}.0"].t}))')
+            post_end.setup = setup_end
+            add(mk(f'get_index0<0,{R}>/1 end-inclusive', 'get_index0', sel([0, R], 2), R, post_end, 'offset of a row index in [0, dims[0]]', end_inclusive=True))
+            add(mk(f'index0<{R}>/1 end-inclusive', 'index0', sel([R], 2), R, post_end, 'offset of a row index in [0, dims[0]]', end_inclusive=True))
 
     vcs += lemmas()
+    import tspec
+    import cspec
+    tv, tf = tspec.build()
+    vcs += tv
+    fns += tf
     return {
-        'targets': [], 'vcs': vcs, 'functions': fns,
-        'decided': ['index/index0/size/dims0 and every recursion level of get_index/get_index0/product/get_dims0 for ranks 1..5 equal the row-major spec functions; no intermediate overflows given suffix products <= 2^62',
-                    'spec-function lemmas: row-major offset is injective on the index box, onto [0,size), lexicographically monotone'],
-        'not_decided': ['storage conversions (C++ object semantics)', 'summed-area table values (float sums)', 'Eigen Map construction'],
+        'targets': cspec.build(), 'vcs': vcs, 'functions': fns,
+        'decided': [
+            'index/index0/size/dims0 and every recursion level of get_index/get_index0/product/get_dims0 for ranks 1..5 equal the row-major spec functions; no intermediate overflows given suffix products <= 2^62',
+            'spec-function lemmas: row-major offset is injective on the index box, onto [0,size), lexicographically monotone',
+            'dims.h, additional contracts: size/product for extents of either sign (suffix products in [-2^62, 2^62]; reshape passes a -1 to size()); index0(dims, i) / get_index0<0>(dims, i) '
+            'END-INCLUSIVE (0 <= i <= dims[0]: offset i * P_1 in [0, size], no overflow)',
+            'base.h (ranks 1..4): dims, size, rows, cols, offset, offset0 (every prefix length; prefix length 1 also end-inclusive), dims0, _resize equal the dims.h spec functions; '
+            'storage.h: tensor_vector_storage_t::resize(dims) pins m_dims == dims and resizes the data to size(dims)',
+            'tensor.h (ranks 1..4, SMT): operator()(index) and operator()(indices...) (const and non-const) address element data()[F_0(indices)] inside the buffer; '
+            'tvector / ttensor / tmatrix and the public vector / tensor / matrix for every prefix length: pointer == data() + offset0(prefix) == data() + F_0(prefix), '
+            'length == size(dims0(prefix)) == P_m (matrix: rows() x cols() == dims[R-2] x dims[R-1]), sub-tensor dims == dims[m:], the view lies inside [0, size) of the SAME buffer; '
+            'tslice / slice(begin,end) / slice(range): 0 <= b <= e <= dims[0] => pointer == data() + b * P_1, dims == (e - b, dims[1..]), offset0(b) + (e - b) * P_1 <= size; '
+            'treshape / reshape (source rank x target rank in (2,1) (2,2) (2,3) (2,4) (1,2) (3,1) (4,2); one run per position of the -1 and one without): same data pointer, every '
+            'resulting extent >= 0, the -1 becomes size() / (product of the others), the extents multiply to size() (the assert in the code, proved); the division is by non-zero and nothing overflows',
+            'tensor.h indexed (ranks 1..4): indexed(indices, map): loop invariant "rows 0..i-1 written, one copy each"; per iteration the index list is read at i (in range), row indices(i) of '
+            'this tensor (offset indices(i) * P_1, in range by the asserted precondition on the index values) is copied to row i of the output (offset i * P_1), whole rows of equal length, '
+            'from this tensor\'s buffer to the output\'s; indexed(indices, mem&): the output has EXACTLY the dims (indices.size(), dims[1..]) -- every extent pinned, not the element count -- '
+            'and the callee precondition subtensor.dims() == (indices.size(), dims[1..]) holds at the inner call; indexed(indices): the returned tensor has exactly those dims',
+            'integral.h: integral_t<1>::get for int8 -> int64 and int32 -> int64 (CBMC, real arrays of symbolic length <= 10^6, --conversion-check / --signed-overflow-check ON): '
+            'out(0) == in(0), out(g) == out(g-1) + in(g) at a ghost index, every access in bounds, no overflow and no narrowing of the running sum; ranks 2 and 3 (SMT): the index pattern of '
+            'the recursion (slice i0 of the input integrated into slice i0 of the output, then output row i0-1 added to output row i0, whole rows, i0 >= 1 only, in that order); integral(): '
+            'an empty tensor is left alone, a non-empty one is integrated exactly once',
+            'algorithm.h remove_if(op, rank-1 tensor) (CBMC, the real loops under loop contracts, real array of symbolic length): every index of [0, size) is examined, in order, nothing outside; '
+            'returns the number of kept elements; the ORIGINAL value of every kept element g ends at position #(kept before g) < ret (compaction in order); detail::size, detail::copy (rank 1); '
+            'the same contract on the (rank 1, rank 2, rank 1) instantiation that solver/bundle.h uses (expanded pack, one target per tracked tensor; rows of the rank-2 tensor are opaque tokens)',
+            'range.h: tensor_range_t(begin, end), make_range, begin, end, size (== end - begin, no overflow for ends in (-2^62, 2^62)), valid(n) <=> 0 <= begin < end <= n',
+            'pointer level (CBMC, ranks 1..3): in tvector / ttensor / tmatrix / tslice the real expression ptr + offset0(..) stays inside the array object of size() doubles and the mapped range '
+            '[pointer, pointer + extent) is addressable memory of that object; operator()(index) returns data() + index inside the object. The offsets\' contracts are ASSUMED there exactly as '
+            'proved on the SMT side: the C requires-clause is generated from the same python clause functions (tmodel.ens_view / ens_slice) with the C names substituted',
+            'GENUINE DEFECT kept as failing obligations (tensor_t<R>::tslice/callee offset0 ASSERTED precondition ...): tslice admits begin == end == dims[0] (its own assert: begin <= end <= '
+            'size<0>()) but then calls offset0(begin), whose assert (get_index0: index < dims[0]) rejects it; t.slice(n, n) and empty.slice(0, 0) abort in debug builds. The arithmetic itself is '
+            'right (all other tslice obligations are proved for the whole range through the end-inclusive contract of offset0)'],
+        'not_decided': ['storage conversions / copy semantics between owning and mapping storages (C++ object semantics)', 'summed-area table VALUES for ranks >= 2 and for floating-point outputs',
+                        'Eigen Map construction itself (map_vector / map_matrix / map_tensor are constructors: their result is modelled as (pointer, extent))',
+                        'detail::copy on rank >= 2 tensors (assigns tensor_map_t temporaries: object semantics) -- in the three-tensor remove_if target it is an ASSUMED contract (row idst := row isrc, rows in range checked)',
+                        'make_dims / cat_dims (aggregate initialisation of std::array)', 'tensor.h numeric helpers (zero, full, random, min, max, ... : Eigen expressions over vector())'],
         'assumptions': ['tensor invariant: every extent >= 0 and every suffix product of the extents <= 2^62 (precondition, reported)',
-                        'template arguments of calls inside templates are read from the source text and evaluated under the instantiation bindings'],
-        'trusted': ['std::get<I>(std::array) returns element I', 'std::array::fill'],
+                        'template arguments of calls inside templates are read from the source text and evaluated under the instantiation bindings',
+                        'storage invariant: data() addresses size() elements (owning storage: established by the constructors / resize through Eigen; mapping storages: the caller\'s promise)',
+                        'private helpers tvector / ttensor / tmatrix / tslice / treshape receive ptr == data() (true of their only callers, the public wrappers, which are proved to pass data())',
+                        'the asserts compiled out under NDEBUG are the preconditions: index tuples inside the index box, slice range 0 <= begin <= end <= dims[0], indexed: every index value in '
+                        '[0, dims[0]) and (map overload) subtensor.dims() == (indices.size(), dims[1..]), integral: equal dims',
+                        'reshape(sizes...) precondition: every size >= 0 except at most one -1; the requested shape (-1 read as 1) has suffix products <= 2^62; without a -1 the sizes multiply to '
+                        'size(); with a -1 the product of the others is NON-ZERO (otherwise the code divides by zero: reported precondition) and divides size() (otherwise the code\'s assert fails)',
+                        'indexed(indices, mem&) / indexed(indices): the gathered shape is itself a valid tensor shape: indices.size() * P_1 <= 2^62',
+                        'Eigen (ASSUMED contracts): Map = expr and Map += Map copy / add coefficient k to coefficient k and require equal lengths (Eigen asserts it; a Map cannot be resized), '
+                        'cast<T>() keeps the coefficients, vector.resize(n) allocates n coefficients',
+                        'make_dims(sizes...) is the array of its arguments; std::array copy assignment is element-wise',
+                        'remove_if: op is a pure function of the index (libnano\'s callers read tensors that remove_if is compacting, but only at positions >= curr, which are still original); '
+                        'all tensors passed together have the same size<0>() (true of the three call sites: slices [0, m_size) of equally long buffers)',
+                        'integral_t<1>::get: tensors of at most 10^6 elements (bound on the symbolic array length; keeps |running sum| <= 2^31 * 10^6 < 2^63)',
+                        'CBMC pointer shell: the ghost results of offset0 / size(dims0) / the slice extent satisfy the SMT-proved clauses (generated from the same clause functions) and lie in [0, size]'],
+        'trusted': ['std::get<I>(std::array) returns element I', 'std::array::fill', 'std::array::operator[] with a constant index', 'range-based for over std::array<T, N> runs exactly N iterations in index order'],
     }
 
 
@@ -257,6 +344,8 @@ def replay(rp):
     """replay the solver's counterexample (dims, indices) on the real header"""
     import replaylib
     out = {'reproduced': False, 'runs': []}
+    if 'tensor_t<' in rp.get('target', ''):
+        return replay_tensor(rp, out)
     exe = replaylib.build_header_only('replay/C16_replay.cpp', 'C16_replay')
     for fo in rp['failed_obligations']:
         model = replaylib.parse_model((fo.get('counterexample') or {}).get('model', ''))
@@ -277,5 +366,36 @@ def replay(rp):
         rc, so, se = replaylib.run_driver(exe, [R] + [d for _, d in dims] + idx)
         out['runs'].append({'obligation': fo['id'], 'dims': [d for _, d in dims], 'index': idx, 'exit': rc, 'output': so.strip()})
         if rc == 1:
+            out['reproduced'] = True
+    return out
+
+
+def replay_tensor(rp, out):
+    """tensor.h obligations: the solver's (dims, begin, end) on the real tensor_t::slice, in a build WITH assertions; shapes too
+    large to allocate are replaced by a small shape with the same relation between begin, end and dims[0]"""
+    import replaylib
+    import subprocess
+    if 'slice' not in rp.get('target', ''):
+        return out
+    exe = replaylib.build_header_only('replay/C16_tensor_replay.cpp', 'C16_tensor_replay', extra=['-UNDEBUG', '-O0'])
+    R = int(re.search(r'tensor_t<(\d)>', rp['target']).group(1))
+    for fo in rp['failed_obligations']:
+        model = replaylib.parse_model((fo.get('counterexample') or {}).get('model', ''))
+        dims = [model.get(f'self_m_dims_{k}') for k in range(R)]
+        b, e = model.get('begin'), model.get('end')
+        if None in dims or b is None or e is None:
+            continue
+        size = 1
+        for d in dims:
+            size *= d
+        if size > 10 ** 6 or dims[0] > 10 ** 6:
+            small = [3] + [min(d, 2) for d in dims[1:]]
+            b, e = (small[0] if b == dims[0] else min(b, small[0])), (small[0] if e == dims[0] else min(e, small[0]))
+            dims = small
+        r = subprocess.run([exe, 'slice', str(R)] + [str(d) for d in dims] + [str(b), str(e)], capture_output=True, text=True, timeout=60)
+        aborted = r.returncode < 0 and 'Assertion' in r.stderr
+        out['runs'].append({'obligation': fo['id'], 'dims': dims, 'begin': b, 'end': e, 'exit': r.returncode, 'output': r.stdout.strip(),
+                            'assertion': r.stderr.strip()[-300:] if aborted else None})
+        if aborted or r.returncode == 1:
             out['reproduced'] = True
     return out
